@@ -22,6 +22,10 @@ Variable allfs : list field.
 Hypothesis size_bad_spec : forall x, size_bad OP x = (x <=? 0).
 Hypothesis order_same : forall p c, order_bad_r OP p c = order_bad_w OP p c.
 Hypothesis get_bytes_bad_spec : forall n len, get_bytes_bad OP n len = (len <? n).
+Hypothesis size_bad_v_spec : forall x, size_bad_v OP x = (x <=? 0).
+Hypothesis rv_is_last_spec : forall x len, rv_is_last OP x len = (len <=? x).
+Hypothesis rv_overrun_spec : forall al len, rv_overrun OP al len = (len <? al).
+Hypothesis align_spec : forall x al, 0 <= x -> 0 < al -> x <= align_up OP x al < x + al.
 
 (* how a member / element of static type t is decoded: through the factory when t is abstract *)
 Definition is_abs (t : string) : bool :=
@@ -57,7 +61,11 @@ Inductive mkind :=
 | MkNamedSized (t : string) (sfn : string)                 (* named member decoded from its first <sfn> bytes *)
 | MkComputed (i : intty) (gn : string) (t : string) (d : Z)  (* @sizeref(gn, d): size of member gn + d, 0 when gn is absent *)
 | MkCondNamed (t : string) (cfn : string)                  (* named member present iff the computed member cfn is not 0 *)
-| MkCondBytes (n : string) (y : Z).                        (* byte array sized by n, present iff n <> y *)
+| MkCondBytes (n : string) (y : Z)                         (* byte array sized by n, present iff n <> y *)
+| MkByteSize (i : intty) (g : field)                       (* byte size (padding included) of the byte-constrained array g *)
+| MkVarSized (a : array) (n : string)                      (* aligned variable-size array occupying n bytes *)
+| MkFillPlain (a : array)                                  (* unaligned array filling the rest of the window *)
+| MkFillVar (a : array).                                   (* aligned variable-size array filling the rest of the window *)
 
 (* an unconditional computed (@sizeref) integer member measuring a named member *)
 Definition computed_info (cf : field) : option (intty * string * string * Z) :=
@@ -111,12 +119,14 @@ Definition classify (f : field) : option mkind :=
            | Some g =>
              match f_array g with
              | Some ga =>
-               if (ends_with_count (f_name f) || negb (a_byte_constrained ga)) && it_unsigned i then
-                 match f_cond g with
-                 | None => Some (MkCount i g)
-                 | Some gc => match c_value gc with CvNum y => if is_byte_array ga then Some (MkCountCond i g y) else None | _ => None end
-                 end
-               else None
+               if ends_with_count (f_name f) || negb (a_byte_constrained ga) then
+                 if it_unsigned i then
+                   match f_cond g with
+                   | None => Some (MkCount i g)
+                   | Some gc => match c_value gc with CvNum y => if is_byte_array ga then Some (MkCountCond i g y) else None | _ => None end
+                   end
+                 else None
+               else Some (MkByteSize i g)
              | None => None
              end
            end
@@ -132,7 +142,12 @@ Definition classify (f : field) : option mkind :=
       match bound_field allfs f, a_size a with
       | None, SzName n =>
         if is_byte_array a then Some (MkBytes n)
-        else if negb (is_variable_size tm a) && negb (a_byte_constrained a) && (alignment_of a =? 0) then Some (MkArray a n) else None
+        else if negb (is_variable_size tm a) && negb (a_byte_constrained a) && (alignment_of a =? 0) then Some (MkArray a n)
+        else if is_variable_size tm a && a_byte_constrained a && (0 <? alignment_of a) then Some (MkVarSized a n) else None
+      | None, SzFill =>
+        if is_byte_array a then None
+        else if negb (is_variable_size tm a) && negb (a_byte_constrained a) && (alignment_of a =? 0) && is_none (a_sort_key a) then Some (MkFillPlain a)
+        else if is_variable_size tm a && negb (a_byte_constrained a) && (0 <? alignment_of a) then Some (MkFillVar a) else None
       | _, _ => None
       end
     end
@@ -206,6 +221,14 @@ Definition kind_facts (f : field) (k : mkind) : Prop :=
                        exists c cf a j, f_cond f = Some c /\ c_link c = n /\ c_value c = CvNum y /\ c_op c = "not equals" /\
                                       find_field allfs n = Some cf /\ f_type cf = FInt j /\
                                       f_type f = FArray a /\ a_size a = SzName n /\ is_byte_array a = true
+  | MkByteSize i g => f_cond f = None /\ f_type f = FInt i /\ 0 <= it_size i /\ is_reserved f = false /\ bound_field allfs f = Some g /\
+                      (exists ga, f_array g = Some ga /\ (ends_with_count (f_name f) || negb (a_byte_constrained ga)) = false)
+  | MkVarSized a n => f_cond f = None /\ bound_field allfs f = None /\ f_type f = FArray a /\ a_size a = SzName n /\ is_byte_array a = false /\
+                      is_variable_size tm a = true /\ a_byte_constrained a = true /\ 0 < alignment_of a
+  | MkFillPlain a => f_cond f = None /\ bound_field allfs f = None /\ f_type f = FArray a /\ a_size a = SzFill /\ is_byte_array a = false /\
+                     is_variable_size tm a = false /\ a_byte_constrained a = false /\ alignment_of a = 0 /\ a_sort_key a = None
+  | MkFillVar a => f_cond f = None /\ bound_field allfs f = None /\ f_type f = FArray a /\ a_size a = SzFill /\ is_byte_array a = false /\
+                   is_variable_size tm a = true /\ a_byte_constrained a = false /\ 0 < alignment_of a
   end.
 
 Lemma find_field_name fs n g : find_field fs n = Some g -> f_name g = n.
@@ -258,7 +281,9 @@ Proof.
         intros H; injection H as <-. cbn [kind_facts]. repeat split; try assumption; try reflexivity; lia.
       * destruct (bound_field allfs f) as [g|] eqn:Hb.
         -- destruct (f_array g) as [ga|] eqn:Hga; [|discriminate].
-           destruct (_ && _) eqn:Hc; [|discriminate]. apply Bool.andb_true_iff in Hc as [Hc Hu].
+           destruct (_ || _) eqn:Hc.
+           2:{ intros H; injection H as <-. cbn [kind_facts]. repeat split; try assumption; try reflexivity; try lia. exists ga. now split. }
+           destruct (it_unsigned i) eqn:Hu; [|discriminate].
            destruct (f_cond g) as [gc|] eqn:Hgc.
            ++ destruct (c_value gc) as [y|] eqn:Hgv; [|discriminate]. destruct (is_byte_array ga); [|discriminate].
               intros H; injection H as <-. cbn [kind_facts]. repeat split; try assumption; try reflexivity; try lia.
@@ -270,11 +295,24 @@ Proof.
       destruct (size_fields_of allfs f) as [|sf [|]] eqn:Hsf; try discriminate; intros H; injection H as <-; cbn [kind_facts]; repeat split; try assumption; try reflexivity.
       exists sf. now split.
     + destruct (bound_field allfs f) eqn:Hb; [discriminate|]. destruct (a_size a) as [|n|] eqn:Has; try discriminate.
-      destruct (is_byte_array a) eqn:Hba.
-      * intros H; injection H as <-. cbn [kind_facts]. repeat split; try assumption; try reflexivity. exists a. now repeat split.
-      * destruct (_ && _) eqn:Hc; [|discriminate]. intros H; injection H as <-.
-        apply Bool.andb_true_iff in Hc as [Hc Hal]. apply Bool.andb_true_iff in Hc as [Hvs Hbc]. apply Bool.negb_true_iff in Hvs, Hbc.
-        cbn [kind_facts]. repeat split; try assumption; try reflexivity. lia.
+      * destruct (is_byte_array a) eqn:Hba.
+        -- intros H; injection H as <-. cbn [kind_facts]. repeat split; try assumption; try reflexivity. exists a. now repeat split.
+        -- destruct (negb (is_variable_size tm a) && negb (a_byte_constrained a) && (alignment_of a =? 0)) eqn:Hc.
+           ++ intros H; injection H as <-.
+              apply Bool.andb_true_iff in Hc as [Hc Hal]. apply Bool.andb_true_iff in Hc as [Hvs Hbc]. apply Bool.negb_true_iff in Hvs, Hbc.
+              cbn [kind_facts]. repeat split; try assumption; try reflexivity. lia.
+           ++ destruct (is_variable_size tm a && a_byte_constrained a && (0 <? alignment_of a)) eqn:Hc2; [|discriminate]. intros H; injection H as <-.
+              apply Bool.andb_true_iff in Hc2 as [Hc2 Hal]. apply Bool.andb_true_iff in Hc2 as [Hvs Hbc].
+              cbn [kind_facts]. repeat split; try assumption; try reflexivity. lia.
+      * destruct (is_byte_array a) eqn:Hba; [discriminate|].
+        destruct (negb (is_variable_size tm a) && negb (a_byte_constrained a) && (alignment_of a =? 0) && is_none (a_sort_key a)) eqn:Hc.
+        -- intros H; injection H as <-.
+           apply Bool.andb_true_iff in Hc as [Hc Hsk]. apply Bool.andb_true_iff in Hc as [Hc Hal]. apply Bool.andb_true_iff in Hc as [Hvs Hbc].
+           apply Bool.negb_true_iff in Hvs, Hbc. apply is_none_eq in Hsk.
+           cbn [kind_facts]. repeat split; try assumption; try reflexivity. lia.
+        -- destruct (is_variable_size tm a && negb (a_byte_constrained a) && (0 <? alignment_of a)) eqn:Hc2; [|discriminate]. intros H; injection H as <-.
+           apply Bool.andb_true_iff in Hc2 as [Hc2 Hal]. apply Bool.andb_true_iff in Hc2 as [Hvs Hbc]. apply Bool.negb_true_iff in Hbc.
+           cbn [kind_facts]. repeat split; try assumption; try reflexivity. lia.
 Qed.
 
 Lemma classify_cond f k : classify f = Some k -> match k with MkCondNamed _ _ | MkCondBytes _ _ => True | _ => f_cond f = None end.
@@ -296,9 +334,10 @@ Definition member_typed (self : value) (f : field) : Prop :=
     vget self (f_name g) = Some VNull \/ (exists b, vget self (f_name g) = Some (VBytes b))
   | Some (MkNamed t) | Some (MkNamedSized t _) => exists v, vget self (f_name f) = Some v /\ v <> VNull /\ adm_t t v
   | Some (MkBytes _) => exists b, vget self (f_name f) = Some (VBytes b)
-  | Some (MkArray a _) =>
+  | Some (MkArray a _) | Some (MkVarSized a _) | Some (MkFillPlain a) | Some (MkFillVar a) =>
     exists l, vget self (f_name f) = Some (VArr l) /\ (length l <= array_fuel)%nat /\
               match elem_name a with Some et => Forall (adm_t et) l | None => False end
+  | Some (MkByteSize _ _) => True
   | Some (MkSizeof _ gn t) => exists v, vget self gn = Some v /\ v <> VNull /\ adm_t t v
   | Some (MkComputed _ gn t _) => exists v, vget self gn = Some v /\ opt_struct_of t v
   | Some (MkCondNamed t _) => exists v, vget self (f_name f) = Some v /\ opt_struct_of t v
@@ -311,7 +350,9 @@ Definition member_typed (self : value) (f : field) : Prop :=
 Definition env_entry (self : value) (f : field) : option value :=
   match classify f with
   | Some (MkInt _) | Some (MkNamed _) | Some (MkBytes _) | Some (MkArray _ _)
-  | Some (MkNamedSized _ _) | Some (MkCondNamed _ _) | Some (MkCondBytes _ _) => vget self (f_name f)
+  | Some (MkNamedSized _ _) | Some (MkCondNamed _ _) | Some (MkCondBytes _ _)
+  | Some (MkVarSized _ _) | Some (MkFillPlain _) | Some (MkFillVar _) => vget self (f_name f)
+  | Some (MkByteSize _ g) => match member_size OP tm R self g with Ok z => Some (VInt z) | _ => None end
   | Some (MkCount _ g) =>
     match vget self (f_name g) with
     | Some (VBytes b) => Some (VInt (Z.of_nat (length b)))
@@ -353,8 +394,13 @@ Definition deps_ok (seen : list field) (proc : list string) (f : field) : Prop :
   | Some (MkCondBytes n y) => (exists c i, In c seen /\ f_name c = n /\ classify c = Some (MkCountCond i f y)) /\ In n proc
   | Some (MkNamedSized t sfn) => exists c i, In c seen /\ f_name c = sfn /\ classify c = Some (MkSizeof i (f_name f) t)
   | Some (MkCondNamed t cfn) => (exists c i d, In c seen /\ f_name c = cfn /\ classify c = Some (MkComputed i (f_name f) t d)) /\ In cfn proc
+  | Some (MkVarSized _ n) => exists c i, In c seen /\ f_name c = n /\ classify c = Some (MkByteSize i f)
   | _ => True
   end.
+
+(* members that read to the end of the window: only as the last member, with nothing behind *)
+Definition fill_member (f : field) : Prop :=
+  match classify f with Some (MkFillPlain _) | Some (MkFillVar _) => True | _ => False end.
 
 Lemma eget_cons_eq e n v : eget ((n, v) :: e) n = Some v.
 Proof. unfold eget. cbn [find fst]. now rewrite String.eqb_refl. Qed.
@@ -367,6 +413,9 @@ Proof. intros <-. rewrite skipn_app, skipn_all, Nat.sub_diag. reflexivity. Qed.
 
 Lemma cond_local_none e f : f_cond f = None -> cond_local tm allfs e f = Ok true.
 Proof. unfold cond_local. now intros ->. Qed.
+
+Lemma zskipn_all_len (l : bytes) : zskipn (Z.of_nat (length l)) l = [].
+Proof. unfold zskipn. now rewrite Z.leb_refl. Qed.
 
 Lemma zfirstn_all (l : bytes) : zfirstn (Z.of_nat (length l)) l = l.
 Proof. unfold zfirstn. now rewrite Z.leb_refl. Qed.
@@ -397,7 +446,9 @@ Qed.
 (* what serialize writes for the integer-valued kinds *)
 Definition int_written (self : value) (k : mkind) : result Z :=
   match k with
-  | MkInt _ | MkNamed _ | MkBytes _ | MkArray _ _ | MkNamedSized _ _ | MkCondNamed _ _ | MkCondBytes _ _ => unsupported
+  | MkInt _ | MkNamed _ | MkBytes _ | MkArray _ _ | MkNamedSized _ _ | MkCondNamed _ _ | MkCondBytes _ _
+  | MkVarSized _ _ | MkFillPlain _ | MkFillVar _ => unsupported
+  | MkByteSize _ g => member_size OP tm R self g
   | MkReserved _ n => Ok n
   | MkCount _ g =>
     match vget self (f_name g) with
@@ -421,7 +472,7 @@ Definition int_written (self : value) (k : mkind) : result Z :=
   end.
 
 Definition int_of_kind (k : mkind) : option intty :=
-  match k with MkInt i | MkReserved i _ | MkCount i _ | MkCountCond i _ _ | MkSizeof i _ _ | MkComputed i _ _ _ => Some i | _ => None end.
+  match k with MkInt i | MkReserved i _ | MkCount i _ | MkCountCond i _ _ | MkSizeof i _ _ | MkComputed i _ _ _ | MkByteSize i _ => Some i | _ => None end.
 
 Lemma computed_value_eq self cf i gn t d v : computed_facts cf i gn t d -> vget self gn = Some v -> opt_struct_of t v ->
   computed_value R allfs self cf = match v with VNull => Ok 0 | _ => bind (size_t R t v) (fun z => Ok (z + d)) end.
@@ -456,6 +507,8 @@ Proof.
     rewrite (cond_self_none tm R allfs self f Hc). cbn [bind negb]. rewrite Hb, Hft, Hcomp.
     repeat split; try assumption; [now left|].
     destruct Hty as (v & Hv & Hos). rewrite (computed_value_eq self f i gn t d v F Hv Hos), Hv. destruct v; reflexivity.
+  - destruct F as (Hc & Hft & Hw & Hres & Hb & (ga & Hga & Hcnt)). rewrite (cond_self_none tm R allfs self f Hc). cbn [bind negb].
+    rewrite Hb, Hft, Hga, Hcnt. repeat split; try assumption. now left.
 Qed.
 
 Lemma int_written_entry self f k i z : classify f = Some k -> int_of_kind k = Some i -> k <> MkInt i ->
@@ -469,6 +522,7 @@ Proof.
   - destruct (vget self gn) as [v|]; [|discriminate]. now rewrite Hw.
   - destruct (vget self gn) as [v|]; [|discriminate].
     destruct v; try (now injection Hw as <-); destruct (size_t R t _) as [sz| |]; cbn [bind] in Hw; try discriminate; now injection Hw as <-.
+  - now rewrite Hw.
 Qed.
 
 (* ---- conditions ---- *)
@@ -535,7 +589,18 @@ Inductive ser_shape (self : value) (f : field) (bf : bytes) : Prop :=
 | SsArray a n l et : classify f = Some (MkArray a n) -> f_type f = FArray a -> f_cond f = None -> vget self (f_name f) = Some (VArr l) -> (length l <= array_fuel)%nat ->
     elem_name a = Some et -> Forall (adm_t et) l ->
     write_array_go OP tm R a None l (length l) = Ok bf ->
+    env_entry self f = Some (VArr l) -> ser_shape self f bf
+| SsVarArr a l et : f_type f = FArray a -> f_cond f = None -> vget self (f_name f) = Some (VArr l) -> (length l <= array_fuel)%nat ->
+    elem_name a = Some et -> Forall (adm_t et) l -> write_variable OP R a l = Ok bf -> env_entry self f = Some (VArr l) ->
+    ((exists n, classify f = Some (MkVarSized a n)) \/ classify f = Some (MkFillVar a)) -> ser_shape self f bf
+| SsFillPlain a l et : classify f = Some (MkFillPlain a) -> f_type f = FArray a -> f_cond f = None -> vget self (f_name f) = Some (VArr l) -> (length l <= array_fuel)%nat ->
+    elem_name a = Some et -> Forall (adm_t et) l -> write_array_go OP tm R a None l (length l) = Ok bf ->
     env_entry self f = Some (VArr l) -> ser_shape self f bf.
+
+Lemma nokey_eq a : a_sort_key a = None ->
+  {| a_elem := a_elem a; a_size := a_size a; a_sort_key := None; a_byte_constrained := a_byte_constrained a;
+     a_alignment := a_alignment a; a_last_padded := a_last_padded a |} = a.
+Proof. destruct a; cbn. now intros ->. Qed.
 
 Lemma member_ser_inv self total f bf : member_typed self f -> ser_field total self false f = Ok bf -> ser_shape self f bf.
 Proof.
@@ -604,6 +669,24 @@ Proof.
         rewrite Hb, Hft in Hser. unfold member_value in Hser. rewrite Hv in Hser. cbn [bind] in Hser. rewrite Hba in Hser. now injection Hser as <-. }
       subst bf. apply (SsBytes self f b a n); try assumption; [unfold env_entry; now rewrite Hk | left | right; now exists y].
       rewrite Hcs. now destruct b.
+  - (* MkVarSized *)
+    destruct F as (Hc & Hb & Hft & Has & Hba & Hvs & Hbc & Hal). destruct Hty as (l & Hv & Hfuel & Hel).
+    rewrite (cond_self_none tm R allfs self f Hc) in Hser. cbn [bind negb] in Hser. rewrite Hb, Hft in Hser. unfold member_value in Hser. rewrite Hv in Hser.
+    cbn [bind] in Hser. rewrite Hba, Hvs in Hser.
+    destruct (elem_name a) as [et|] eqn:Het; [|contradiction].
+    apply (SsVarArr self f bf a l et); try assumption; [unfold env_entry; now rewrite Hk | left; now exists n].
+  - (* MkFillPlain *)
+    destruct F as (Hc & Hb & Hft & Has & Hba & Hvs & Hbc & Hal & Hsk). destruct Hty as (l & Hv & Hfuel & Hel).
+    rewrite (cond_self_none tm R allfs self f Hc) in Hser. cbn [bind negb] in Hser. rewrite Hb, Hft in Hser. unfold member_value in Hser. rewrite Hv in Hser.
+    cbn [bind] in Hser. rewrite Hba, Hvs, Has in Hser. unfold write_array in Hser. rewrite (nokey_eq a Hsk) in Hser.
+    destruct (elem_name a) as [et|] eqn:Het; [|contradiction].
+    apply (SsFillPlain self f bf a l et); try assumption. unfold env_entry; now rewrite Hk.
+  - (* MkFillVar *)
+    destruct F as (Hc & Hb & Hft & Has & Hba & Hvs & Hbc & Hal). destruct Hty as (l & Hv & Hfuel & Hel).
+    rewrite (cond_self_none tm R allfs self f Hc) in Hser. cbn [bind negb] in Hser. rewrite Hb, Hft in Hser. unfold member_value in Hser. rewrite Hv in Hser.
+    cbn [bind] in Hser. rewrite Hba, Hvs in Hser.
+    destruct (elem_name a) as [et|] eqn:Het; [|contradiction].
+    apply (SsVarArr self f bf a l et); try assumption; [unfold env_entry; now rewrite Hk | now right].
 Qed.
 
 (* ---- decoding of the member shapes ---- *)
@@ -665,7 +748,7 @@ Lemma cond_local_shape seen proc e self f bf : env_ok seen e self -> member_type
   cond_local tm allfs e f = Ok (match vget self (f_name f) with Some VNull => false | _ => true end) \/
   (f_cond f = None /\ cond_local tm allfs e f = Ok true).
 Proof.
-  intros Henv Hty Hdeps Hsh. destruct Hsh as [i z Hft Hc|t v Hft Hcs Hv Hnn Hadm Henc He Hk| Hcs Hbf Hv He Hk|a n Hft Hba Has Hv He Hcs Hk|a n l et Hk Hft Hc].
+  intros Henv Hty Hdeps Hsh. destruct Hsh as [i z Hft Hc|t v Hft Hcs Hv Hnn Hadm Henc He Hk| Hcs Hbf Hv He Hk|a n Hft Hba Has Hv He Hcs Hk|a n l et Hk Hft Hc|a l et Hft Hc|a l et Hk Hft Hc].
   - right. split; [exact Hc | now apply cond_local_none].
   - destruct Hk as [Hk|[(sfn & Hk)|(cfn & Hk)]].
     + right. pose proof (classify_facts f _ Hk) as F. cbn [kind_facts] in F. destruct F as (Hc & _). split; [exact Hc | now apply cond_local_none].
@@ -681,18 +764,21 @@ Proof.
     + right. pose proof (classify_facts f _ Hk) as F. cbn [kind_facts] in F. destruct F as (Hc & _). split; [exact Hc | now apply cond_local_none].
     + left. exact (proj1 (cond_bytes_local seen proc e self f n y Hk Henv Hdeps Hty)).
   - right. split; [exact Hc | now apply cond_local_none].
+  - right. split; [exact Hc | now apply cond_local_none].
+  - right. split; [exact Hc | now apply cond_local_none].
 Qed.
 
 (* ---- one member: what serialize_field wrote, deserialize_field reads back, leaving exactly the rest ---- *)
 Lemma member_step (seen : list field) proc e self total f bf rest :
   not_size_member f ->
-  env_ok seen e self -> member_typed self f -> deps_ok seen proc f ->
+  env_ok seen e self -> member_typed self f -> deps_ok seen proc f -> (fill_member f -> rest = []) ->
   ser_field total self false f = Ok bf ->
   exists v, des_field e f (bf ++ rest) = Ok ((f_name f, v) :: e, rest) /\ Some v = env_entry self f.
 Proof.
-  intros Hns Henv Hty Hdeps Hser. pose proof (member_ser_inv self total f bf Hty Hser) as Hsh.
+  intros Hns Henv Hty Hdeps Hfill Hser. pose proof (member_ser_inv self total f bf Hty Hser) as Hsh.
   pose proof (cond_local_shape seen proc e self f bf Henv Hty Hdeps Hsh) as Hcl.
-  destruct Hsh as [i z Hft Hc Hw Hres Hpy He|t v Hft Hcs Hv Hnn Hadm Henc He Hk| Hcs Hbf Hv He Hk|a n Hft Hba Has Hv He Hcs Hk|a n l et Hk Hft Hc Hv Hfuel Het Hall Hwr He].
+  destruct Hsh as [i z Hft Hc Hw Hres Hpy He|t v Hft Hcs Hv Hnn Hadm Henc He Hk| Hcs Hbf Hv He Hk|a n Hft Hba Has Hv He Hcs Hk|a n l et Hk Hft Hc Hv Hfuel Het Hall Hwr He
+                   |a l et Hft Hc Hv Hfuel Het Hall Hwr He Hk|a l et Hk Hft Hc Hv Hfuel Het Hall Hwr He].
   - exists (VInt z). split; [eapply int_step; eassumption | now rewrite He].
   - exists v. split; [|now rewrite He]. unfold deserialize_field.
     assert (Hcl' : cond_local tm allfs e f = Ok true) by (destruct Hcl as [Hcl|[_ Hcl]]; [rewrite Hcl, Hv; now destruct v | exact Hcl]).
@@ -735,6 +821,39 @@ Proof.
                     array_fuel Hall eq_refl Hfuel (or_intror eq_refl) Hwr).
       - exact (read_count_nokey a et Het Hsk l None bf rest 0 array_fuel Hall Hfuel Hwr). }
     rewrite Hread. cbn [bind]. rewrite Hsize. cbn [bind]. now rewrite zskipn_app.
+  - (* aligned variable-size arrays *)
+    exists (VArr l). split; [|now rewrite He]. unfold deserialize_field. rewrite (cond_local_none e f Hc). cbn [bind].
+    pose proof (elem_rt_of a et Het) as Hrt.
+    assert (Hload : load e f (bf ++ rest) = Ok (VArr l, rest)).
+    { destruct Hk as [(n & Hk)|Hk]; pose proof (classify_facts f _ Hk) as F; cbn [kind_facts] in F.
+      + destruct F as (_ & Hb & _ & Has & Hba & Hvs & Hbc & Hal).
+        pose proof (write_variable_size OP tm R a (adm_t et) align_spec Hrt Hal l bf Hall Hwr) as Hsize.
+        pose proof (write_read_variable OP tm R a (adm_t et) size_bad_v_spec rv_is_last_spec rv_overrun_spec align_spec Hrt Hal l bf array_fuel Hall Hfuel Hwr) as Hread.
+        unfold deps_ok in Hdeps. rewrite Hk in Hdeps. destruct Hdeps as (c & ci & Hin & Hcn & Hck).
+        pose proof (Henv c Hin) as Hec. unfold env_entry in Hec. rewrite Hck in Hec.
+        assert (Hms : member_size OP tm R self f = Ok (Z.of_nat (length bf))).
+        { unfold member_size, member_value. rewrite Hft. cbv beta iota zeta. rewrite Hba, Hv. cbn [bind]. rewrite Hvs. exact Hsize. }
+        rewrite Hms, Hcn in Hec.
+        unfold load_field. rewrite Hft. cbv beta iota zeta. rewrite Hba, Has. unfold size_local. rewrite Hec. cbn [bind]. rewrite Hvs.
+        rewrite zfirstn_app, Hread. cbn [bind]. rewrite Hbc. cbn [bind]. now rewrite zskipn_app.
+      + destruct F as (_ & Hb & _ & Has & Hba & Hvs & Hbc & Hal).
+        rewrite (Hfill ltac:(unfold fill_member; now rewrite Hk)), app_nil_r.
+        pose proof (write_variable_size OP tm R a (adm_t et) align_spec Hrt Hal l bf Hall Hwr) as Hsize.
+        pose proof (write_read_variable OP tm R a (adm_t et) size_bad_v_spec rv_is_last_spec rv_overrun_spec align_spec Hrt Hal l bf array_fuel Hall Hfuel Hwr) as Hread.
+        unfold load_field. rewrite Hft. cbv beta iota zeta. rewrite Hba, Has. cbn [bind]. rewrite Hvs, Hread. cbn [bind]. rewrite Hbc.
+        replace (negb (alignment_of a =? 0)) with true by lia. rewrite Hsize. cbn [bind]. now rewrite zskipn_all_len. }
+    rewrite Hload. reflexivity.
+  - (* unaligned fill arrays *)
+    exists (VArr l). split; [|now rewrite He]. unfold deserialize_field. rewrite (cond_local_none e f Hc). cbn [bind].
+    pose proof (elem_rt_of a et Het) as Hrt.
+    assert (Hload : load e f (bf ++ rest) = Ok (VArr l, rest)).
+    { pose proof (classify_facts f _ Hk) as F; cbn [kind_facts] in F. destruct F as (_ & Hb & _ & Has & Hba & Hvs & Hbc & Hal & Hsk).
+      rewrite (Hfill ltac:(unfold fill_member; now rewrite Hk)), app_nil_r.
+      pose proof (write_size OP tm R a (adm_t et) Hrt l None bf Hall Hwr) as Hsize.
+      pose proof (write_read_fill OP tm R a (adm_t et) size_bad_spec Hrt l None bf array_fuel Hall Hfuel Hsk Hwr) as Hread.
+      unfold load_field. rewrite Hft. cbv beta iota zeta. rewrite Hba, Has. cbn [bind]. rewrite Hvs, Hread. cbn [bind]. rewrite Hbc, Hal. cbn [negb Z.eqb].
+      rewrite Hsize. cbn [bind]. now rewrite zskipn_all_len. }
+    rewrite Hload. reflexivity.
 Qed.
 
 (* ---- size: what the size property adds for a member is the number of bytes serialize_field writes for it ---- *)
@@ -743,7 +862,8 @@ Lemma member_size_ok self total f bf :
   bind (cond_self tm R allfs self f) (fun c => if c then member_size OP tm R self f else Ok 0) = Ok (Z.of_nat (length bf)).
 Proof.
   intros Hty Hser. pose proof (member_ser_inv self total f bf Hty Hser) as Hsh.
-  destruct Hsh as [i z Hft Hc Hw Hres Hpy He|t v Hft Hcs Hv Hnn Hadm Henc He Hk| Hcs Hbf Hv He Hk|a n Hft Hba Has Hv He Hcs Hk|a n l et Hk Hft Hc Hv Hfuel Het Hall Hwr He].
+  destruct Hsh as [i z Hft Hc Hw Hres Hpy He|t v Hft Hcs Hv Hnn Hadm Henc He Hk| Hcs Hbf Hv He Hk|a n Hft Hba Has Hv He Hcs Hk|a n l et Hk Hft Hc Hv Hfuel Het Hall Hwr He
+                   |a l et Hft Hc Hv Hfuel Het Hall Hwr He Hk|a l et Hk Hft Hc Hv Hfuel Het Hall Hwr He].
   - eapply int_size; eassumption.
   - rewrite Hcs. cbn [bind]. unfold member_size, member_value. rewrite Hft, Hv. cbn [bind].
     destruct (sub_rt t v bf [] Hadm Henc) as (_ & Hs & _). destruct v; try exact Hs. contradiction.
@@ -753,6 +873,16 @@ Proof.
     destruct Hcs as [Hcs|Hcs]; rewrite Hcs; cbn [bind]; [destruct bf; [reflexivity|exact Hms] | exact Hms].
   - rewrite (cond_self_none tm R allfs self f Hc). cbn [bind].
     pose proof (classify_facts f _ Hk) as F. cbn [kind_facts] in F. destruct F as (_ & Hb & _ & Has & Hba & Hvs & Hbc & Hal).
+    unfold member_size, member_value. rewrite Hft. cbv beta iota zeta. rewrite Hba, Hv. cbn [bind]. rewrite Hvs.
+    exact (write_size OP tm R a (adm_t et) (elem_rt_of a et Het) l None bf Hall Hwr).
+  - rewrite (cond_self_none tm R allfs self f Hc). cbn [bind].
+    assert (F : is_byte_array a = false /\ is_variable_size tm a = true /\ 0 < alignment_of a).
+    { destruct Hk as [(n & Hk)|Hk]; pose proof (classify_facts f _ Hk) as F; cbn [kind_facts] in F; tauto. }
+    destruct F as (Hba & Hvs & Hal).
+    unfold member_size, member_value. rewrite Hft. cbv beta iota zeta. rewrite Hba, Hv. cbn [bind]. rewrite Hvs.
+    exact (write_variable_size OP tm R a (adm_t et) align_spec (elem_rt_of a et Het) Hal l bf Hall Hwr).
+  - rewrite (cond_self_none tm R allfs self f Hc). cbn [bind].
+    pose proof (classify_facts f _ Hk) as F. cbn [kind_facts] in F. destruct F as (_ & Hb & _ & Has & Hba & Hvs & Hbc & Hal & Hsk).
     unfold member_size, member_value. rewrite Hft. cbv beta iota zeta. rewrite Hba, Hv. cbn [bind]. rewrite Hvs.
     exact (write_size OP tm R a (adm_t et) (elem_rt_of a et Het) l None bf Hall Hwr).
 Qed.
@@ -831,12 +961,30 @@ Proof.
     destruct Hty as [Hv|(b & Hv & _)]; rewrite Hv in H; cbn [truthy bind] in H; [injection H as <-; lia|].
     destruct b; cbn [negb] in H; [injection H as <-; lia|].
     unfold member_size, member_value in H. rewrite Hft in H. cbv beta iota zeta in H. rewrite Hba, Has, Hv in H. cbn [bind] in H. injection H as <-. lia.
+  - destruct F as (Hc & Hft & Hw & _). rewrite (Hint i Hc Hft Hw). lia.
+  - destruct F as (Hc & _ & Hft & Has & Hba & Hvs & _ & Hal). destruct Hty as (l & Hv & _ & Hel). rewrite (cond_self_none tm R allfs self f Hc) in H. cbn [bind] in H.
+    unfold member_size, member_value in H. rewrite Hft in H. cbv beta iota zeta in H. rewrite Hba, Hv in H. cbn [bind] in H. rewrite Hvs in H.
+    destruct (elem_name a0) as [et|] eqn:Het; [|contradiction]. split; [|contradiction].
+    apply (array_size_nonneg (elem_size R a0) (adm_t et) (alignment_of a0) (skip_last a0)) with (l := l); [| |exact Hel|exact H].
+    + intros e z He Hz. unfold elem_size in Hz. rewrite Het in Hz. exact (sub_pos et e z He Hz).
+    + right. split; [exact Hal|]. intros x Hx. exact (proj1 (align_spec x _ Hx Hal)).
+  - destruct F as (Hc & _ & Hft & Has & Hba & Hvs & _). destruct Hty as (l & Hv & _ & Hel). rewrite (cond_self_none tm R allfs self f Hc) in H. cbn [bind] in H.
+    unfold member_size, member_value in H. rewrite Hft in H. cbv beta iota zeta in H. rewrite Hba, Hv in H. cbn [bind] in H. rewrite Hvs in H.
+    destruct (elem_name a0) as [et|] eqn:Het; [|contradiction]. split; [|contradiction].
+    apply (array_size_nonneg (elem_size R a0) (adm_t et) 0 false) with (l := l); [|now left|exact Hel|exact H].
+    intros e z He Hz. unfold elem_size in Hz. rewrite Het in Hz. exact (sub_pos et e z He Hz).
+  - destruct F as (Hc & _ & Hft & Has & Hba & Hvs & _ & Hal). destruct Hty as (l & Hv & _ & Hel). rewrite (cond_self_none tm R allfs self f Hc) in H. cbn [bind] in H.
+    unfold member_size, member_value in H. rewrite Hft in H. cbv beta iota zeta in H. rewrite Hba, Hv in H. cbn [bind] in H. rewrite Hvs in H.
+    destruct (elem_name a0) as [et|] eqn:Het; [|contradiction]. split; [|contradiction].
+    apply (array_size_nonneg (elem_size R a0) (adm_t et) (alignment_of a0) (skip_last a0)) with (l := l); [| |exact Hel|exact H].
+    + intros e z He Hz. unfold elem_size in Hz. rewrite Het in Hz. exact (sub_pos et e z He Hz).
+    + right. split; [exact Hal|]. intros x Hx. exact (proj1 (align_spec x _ Hx Hal)).
 Qed.
 
 (* ---- the member loops ---- *)
 Inductive ordered : list field -> list string -> list field -> Prop :=
 | ord_nil seen proc : ordered seen proc []
-| ord_cons seen proc f r : deps_ok seen proc f -> ordered (seen ++ [f]) (f_name f :: proc) r -> ordered seen proc (f :: r).
+| ord_cons seen proc f r : deps_ok seen proc f -> (fill_member f -> r = []) -> ordered (seen ++ [f]) (f_name f :: proc) r -> ordered seen proc (f :: r).
 
 Lemma des_loop_step f r proc e buf :
   match f_cond f with Some c => existsb (String.eqb (c_link c)) proc = true | None => True end ->
@@ -861,18 +1009,22 @@ Lemma loop_rt : forall fs seen proc e self total b rest,
   (forall f, In f fs -> not_size_member f) ->
   ordered seen proc fs -> NoDup (map f_name (seen ++ fs)) ->
   env_ok seen e self -> (forall f, In f fs -> member_typed self f) ->
+  (rest = [] \/ forall f, In f fs -> ~ fill_member f) ->
   ser_fields total self false fs = Ok b ->
   exists e', des_loop fs proc [] [] e (b ++ rest) = Ok (e', rest) /\ env_ok (seen ++ fs) e' self /\
              (forall n, ~ In n (map f_name fs) -> eget e' n = eget e n).
 Proof.
-  induction fs as [|f r IH]; intros seen proc e self total b rest Hnsz Hord Hnd Henv Hty Hser.
+  induction fs as [|f r IH]; intros seen proc e self total b rest Hnsz Hord Hnd Henv Hty Hclosed Hser.
   - cbn in Hser. injection Hser as <-. exists e. rewrite app_nil_r. split; [reflexivity | split; [exact Henv | reflexivity]].
   - rewrite ser_fields_cons in Hser.
     destruct (ser_field total self false f) as [bf| |] eqn:Hf; cbn [bind] in Hser; try discriminate.
     destruct (ser_fields total self false r) as [br| |] eqn:Hr; cbn [bind] in Hser; try discriminate.
-    injection Hser as <-. inversion Hord as [|? ? ? ? Hdeps Hrest]; subst.
+    injection Hser as <-. inversion Hord as [|? ? ? ? Hdeps Hlast Hrest]; subst.
     pose proof (Hty f (or_introl eq_refl)) as Htf.
-    destruct (member_step seen proc e self total f bf (br ++ rest) (Hnsz f (or_introl eq_refl)) Henv Htf Hdeps Hf) as (v & Hload & Hv).
+    assert (Hfill : fill_member f -> br ++ rest = []).
+    { intros Hfm. specialize (Hlast Hfm). subst r. cbn in Hr. injection Hr as <-.
+      destruct Hclosed as [->|Hno]; [reflexivity|]. exfalso. exact (Hno f (or_introl eq_refl) Hfm). }
+    destruct (member_step seen proc e self total f bf (br ++ rest) (Hnsz f (or_introl eq_refl)) Henv Htf Hdeps Hfill Hf) as (v & Hload & Hv).
     assert (Henv' : env_ok (seen ++ [f]) ((f_name f, v) :: e) self).
     { intros g Hg. apply in_app_or in Hg as [Hg|[<-|[]]].
       - rewrite eget_cons_neq; [now apply Henv|].
@@ -880,7 +1032,8 @@ Proof.
         apply in_or_app. left. rewrite Heq. now apply in_map.
       - rewrite eget_cons_eq. exact Hv. }
     destruct (IH (seen ++ [f]) (f_name f :: proc) ((f_name f, v) :: e) self total br rest (fun g Hg => Hnsz g (or_intror Hg)) Hrest
-               ltac:(rewrite <- app_assoc; exact Hnd) Henv' (fun g Hg => Hty g (or_intror Hg)) Hr) as (e' & Hloop & Henv'' & Hkeep).
+               ltac:(rewrite <- app_assoc; exact Hnd) Henv' (fun g Hg => Hty g (or_intror Hg))
+               ltac:(destruct Hclosed as [Hc|Hc]; [now left | right; intros g Hg; apply Hc; now right]) Hr) as (e' & Hloop & Henv'' & Hkeep).
     exists e'. split; [|split; [rewrite <- app_assoc in Henv''; exact Henv''|]].
     2:{ intros n Hn. cbn [map] in Hn. rewrite Hkeep by (intros Hx; apply Hn; now right). apply eget_cons_neq. intros Heq. apply Hn. now left. }
     rewrite (des_loop_step f r proc e _ (no_wait seen proc self f Htf Hdeps)).
@@ -952,6 +1105,10 @@ Proof.
   - destruct F as (Hc & _). congruence.
   - split; [reflexivity|]. destruct Hty as (v & Hv & _). eauto.
   - split; [reflexivity|]. destruct Hty as [Hv|(b & Hv & _)]; eauto.
+  - destruct F as (_ & _ & _ & _ & Hbf & _). rewrite Hbf in Hb. discriminate.
+  - split; [reflexivity|]. destruct Hty as (v & Hv & _). eauto.
+  - split; [reflexivity|]. destruct Hty as (v & Hv & _). eauto.
+  - split; [reflexivity|]. destruct Hty as (v & Hv & _). eauto.
 Qed.
 
 End StructRT.
